@@ -513,7 +513,8 @@ func (pkgGen *HttpPackageGenerator) updateMiddlewareReg(router interface{}, midd
 	for _, mw := range middlewareList {
 		// both middleware templates name the function "<middleware>Mw", whatever
 		// naming style was used to derive <middleware>
-		mwNamePattern := fmt.Sprintf(" %sMw", mw)
+		// (up to the parameter list: "_ListMw" is also the beginning of "_ListMwStatsMw")
+		mwNamePattern := fmt.Sprintf(" %sMw(", mw)
 		if bytes.Contains(file, []byte(mwNamePattern)) {
 			continue
 		}
